@@ -18,6 +18,8 @@ def linalg_cases(res, cfgs, only_kinds=None, prop=None):
 def run(res, only=None):
     cfgs = [c for c in CFGS if not only or c in only]
     linalg_cases(res, cfgs)
+    # Sum / Product over iterators of 0..3 matrices are the folds from ZERO / IDENTITY in iteration order (MC_Fold.tla)
+    core.fold_cases(res, cfgs, ["mat"])
     # code -> spec on arbitrary real matrices: products, matrix*vector and determinants recorded per build and judged by TLC against
     # |got - exact| <= K(op) * u * sum|monomials| with arbitrary-precision integers (Trace_Poly.tla defines the polynomials)
     core.record_and_validate(res, "poly", [c for c in cfgs if c != "sse2-rel"], draws=3 if res.tier == "quick" else 60, module="Trace_Poly",
